@@ -167,6 +167,15 @@ def run_history(res, specs, times, hist, exprs, label):
         except Exception as ex:  # noqa
             import traceback
             err = type(ex).__name__ + ": " + str(ex)[:120] + " @ " + " <- ".join(traceback.format_exc().strip().splitlines()[-6:-1:2])[-300:]
+        # a build operation that raises is an aborted call (get_system_velocity_per_frame may have rebuilt some frames and not others):
+        # it must be rejected by a fresh object alike, and the history is judged up to this point only
+        if err and k in ("BuildF", "BuildP", "SysVel"):
+            if fresh_raises(fresh, o, tens.get(o[1]) if k == "BuildP" else None) == err.split(":")[0]:
+                res.count("history cut at a build operation rejected by fresh and used object alike")
+            else:
+                bad.append(f"step {step} {o}: raised {err} although a fresh object accepts the same call")
+            hist = hist[:step]
+            break
         # mirror
         if k == "BuildF":
             fm[o[1]] = o[2]
@@ -229,12 +238,6 @@ def run_history(res, specs, times, hist, exprs, label):
                 exp_exc = fresh.tensions((o[1], fm[o[1]], o[2]))[0] == "exc"
             if k == "SolveP":
                 exp_exc = fresh.pressures((o[1], pm[o[1]], o[2]))[0] == "exc"
-            if k in ("BuildF", "BuildP", "SysVel"):
-                # the input itself may be rejected (e.g. an interface with coincident points has no curvature): history independence
-                # only asks that a fresh object is rejected alike
-                exp_exc = fresh_raises(fresh, o, tens.get(o[1]) if k == "BuildP" else None) == err.split(":")[0]
-                if exp_exc:
-                    res.count("operation rejected by fresh and used object alike")
             if not exp_exc:
                 bad.append(f"step {step} {o}: raised {err} although a fresh object accepts the same call")
         if bad:
